@@ -49,19 +49,11 @@ theorem go_noerr : ∀ (ps : List (Nat × Nat)) (s : St) (acc : List Blk) (se : 
       · exact absurd rfl (hq _ hm)
       · exact go_noerr rest s1 (acc ++ b) se hq1
 
-theorem load_noerr (t : Task) (s s' : St) (lh : String) (st lim : Nat) (lr : LoadRes)
-    (hq : ∀ q ∈ s.script.gets, q.2 ≠ none) (h : load t s lh st lim = (lr, s')) : lr ≠ .err := by
-  obtain ⟨bs, e, se, hg, hcase⟩ := load_cases t s s' lh st lim lr h
-  have := go_noerr (parts t.batch t.conc st lim) s [] false hq
-  rw [hg] at this
-  simp only at this
-  subst this
-  rcases hcase with ⟨_, h⟩ | ⟨_, h, _⟩ | ⟨_, _, ⟨_, h⟩ | ⟨_, _, _, ⟨_, h⟩ | ⟨_, h⟩⟩⟩
-  · subst h; intro h'; cases h'
-  · cases h
-  · subst h; intro h'; cases h'
-  · subst h; intro h'; cases h'
-  · subst h; intro h'; cases h'
+theorem load_noerr (t : Task) (s : St) (st lim : Nat)
+    (hq : ∀ q ∈ s.script.gets, q.2 ≠ none) :
+    (load.go (parts t.batch t.conc st lim) s [] false false).2.1 ≠ true := by
+  rw [go_noerr (parts t.batch t.conc st lim) s [] false hq]
+  intro h; cases h
 
 /-! ### the unwinding invariant -/
 
@@ -235,9 +227,9 @@ theorem unwind_loop {t : Task} {c : Chain} {g : Cur} (hc : c.WF) (hstart : 0 < t
         rw [hl] at this; exact this
       have hss : Same s s2 := hg.same.trans hs2
       have hsc1 : ScriptOK c s1.script := hsc.mono hg.same.script
-      have hne := load_noerr t s1 s2 _ _ _ lr (hh.mono hg.same.script).gets hl
+      have hne := load_noerr t s1 (x.num + 1) (min (c.head - x.num) t.batch) (hh.mono hg.same.script).gets
       rcases load_chain hc t s1 s2 x.hash (x.num + 1) _ lr hsc1 hb hcc hcb (by omega) (by omega) (by omega)
-        (by omega) hl with h | h | ⟨k, hk1, hk2, hk3, ⟨h, hne'⟩ | ⟨h, heq⟩⟩
+        (by omega) hl with h | ⟨_, h⟩ | ⟨k, hk1, hk2, hk3, ⟨h, hne'⟩ | ⟨h, heq⟩⟩
       · subst h; simp only at hok; cases hok
       · exact absurd h hne
       · -- an orphan on top: unwind it and loop
